@@ -111,7 +111,7 @@ def rule_r3(chk, prog, effects):
     for e in effects:
         if not e.writes:
             continue
-        if any('OUTFILE' in t for t in e.prov):
+        if 'OUTFILE' in e.prov:
             n += 1
             ok = e.mod.name == 'nodeio' and e.func is not None and \
                 e.func._qualname == 'write_smtlib_to_file'
